@@ -73,7 +73,7 @@ func consFuzzEnv(tb testing.TB) *consEnv {
 }
 
 var consFuzzChans = []byte{consensus.StateChannel, consensus.DataChannel, consensus.VoteChannel, consensus.VoteSetBitsChannel}
-var consFuzzPeerStates = []string{"fresh", "same", "lag1", "lag2", "ahead", "same-round1"}
+var consFuzzPeerStates = []string{"fresh", "same", "lag1", "lag2", "ahead", "same-round1", "round1-pol0"}
 
 // consPeerInto puts a fresh peer into one of a few states with one valid NewRoundStep.
 func consPeerInto(t failer, e *consEnv, p *hpeer, state string) {
@@ -87,7 +87,7 @@ func consPeerInto(t failer, e *consEnv, p *hpeer, state string) {
 		h -= 2
 	case "ahead":
 		h += 2
-	case "same-round1":
+	case "same-round1", "round1-pol0":
 		r = 1
 	}
 	lcr := int32(0)
@@ -97,6 +97,15 @@ func consPeerInto(t failer, e *consEnv, p *hpeer, state string) {
 	o := deliver(t, e.sw, e.conR, consensus.StateChannel, p, wrapCons(&tmcons.NewRoundStep{Height: h, Round: r, Step: 3, LastCommitRound: lcr}), "NewRoundStep")
 	if o.panicked || o.dropped {
 		t.Fatalf("valid NewRoundStep got the peer dropped")
+	}
+	if state == "round1-pol0" {
+		// the peer also claims a proposal for (H, 1) with POLRound 0 — recorded by the reactor whatever the signature
+		prop := tmproto.Proposal{Type: tmproto.ProposalType, Height: h, Round: r, PolRound: 0, Timestamp: time.Unix(1_700_000_100, 0).UTC(),
+			BlockID: tmproto.BlockID{Hash: b32(1), PartSetHeader: tmproto.PartSetHeader{Total: 1, Hash: b32(2)}}, Signature: fill(3, 64)}
+		o = deliver(t, e.sw, e.conR, consensus.DataChannel, p, wrapCons(&tmcons.Proposal{Proposal: prop}), "Proposal")
+		if o.panicked || o.dropped {
+			t.Fatalf("well-formed Proposal got the peer dropped")
+		}
 	}
 }
 
@@ -167,6 +176,13 @@ func consSeeds(e *consEnv) [][2]interface{} {
 		{D, wrapCons(&tmcons.ProposalPOL{Height: h, ProposalPolRound: 0, ProposalPol: *ba(4, 0)})},
 		{D, wrapCons(&tmcons.ProposalPOL{Height: h, ProposalPolRound: math.MaxInt32, ProposalPol: *ba(10000, 157)})},
 		{D, wrapCons(&tmcons.ProposalPOL{Height: h, ProposalPolRound: 0, ProposalPol: *ba(-5, 3)})},
+		{D, wrapCons(&tmcons.ProposalPOL{Height: h, ProposalPolRound: 0, ProposalPol: *ba(65, 2)})},
+		{D, wrapCons(&tmcons.ProposalPOL{Height: h, ProposalPolRound: 0, ProposalPol: *ba(128, 2)})},
+		{D, wrapCons(&tmcons.ProposalPOL{Height: h, ProposalPolRound: 0, ProposalPol: *ba(10000, 157)})},
+		{D, wrapCons(&tmcons.ProposalPOL{Height: h, ProposalPolRound: 0, ProposalPol: *ba(1, 1)})},
+		{B, wrapCons(&tmcons.VoteSetBits{Height: h, Round: 0, Type: tmproto.PrevoteType, BlockID: bid, Votes: *ba(129, 3)})},
+		{B, wrapCons(&tmcons.VoteSetBits{Height: h, Round: 0, Type: tmproto.PrecommitType, BlockID: bid, Votes: *ba(1, 1)})},
+		{S, wrapCons(&tmcons.NewValidBlock{Height: h, Round: 0, BlockPartSetHeader: tmproto.PartSetHeader{Total: 129, Hash: oh.Hash}, BlockParts: ba(129, 3), IsCommit: true})},
 		{D, part(0, 1, 0)},
 		{D, part(math.MaxUint32, math.MaxInt64, 100)},
 		{D, part(1600, 1601, 101)},
